@@ -359,6 +359,8 @@ func worldRelease(w *World) {
 				env.probeTCP("10.0.0.1:20001", 5*time.Second)
 			case "http":
 				env.probeHTTP("a.example.test", "/x/1", 5*time.Second)
+			case "http-limit":
+				env.probeHTTP("hl.example.test", "/x/1", 5*time.Second)
 			}
 		}
 	}
